@@ -7,7 +7,7 @@ import numpy as np
 from props.common import load_impl, exc_name
 
 RULE = ("for a range of scikit-learn estimators (1-NN, 3-NN, logistic regression, decision tree, SVC, SVC(probability), LinearSVC, GaussianNB, small random forest, "
-        "scaler+PCA+logistic pipeline) x {accuracy on 3 classes, accuracy with a training class absent from the validation labels (null score exactly 0), ROC-AUC on binary labels} x EVERY subset of 6 training rows quick / 8 thorough (empty, single-row, "
+        "scaler+PCA+logistic pipeline; a QuantileTransformer pipeline that emits UserWarnings on small coalitions for the scoring loops) x {accuracy on 3 classes, accuracy with a training class absent from the validation labels (null score exactly 0), ROC-AUC on binary labels} x EVERY subset of 6 training rows quick / 8 thorough (empty, single-row, "
         "single-class, too small included): (1) the raw outcome class of fit+predict+metric is recorded under the harness's own try/except, fed to the Lean model "
         "of the two handler layers (Outcome.layer1/caught) and the predicted value / raise-or-not is compared with the real utility call; (2) the real call must "
         "return a finite float and never raise; (3) bruteforce and montecarlo over the same data return finite vectors. Non-trivial = the subset is degenerate "
@@ -136,7 +136,12 @@ def run(ctx):
     # finiteness of the scoring methods on such data
     from sklearn.neighbors import KNeighborsClassifier
     from sklearn.linear_model import LogisticRegression
-    for metric_kind, est in (("accuracy", KNeighborsClassifier(3)), ("rocauc", LogisticRegression(max_iter=100))):
+    from sklearn.pipeline import make_pipeline
+    from sklearn.preprocessing import QuantileTransformer
+    # fits silently on the full set, emits a UserWarning ("n_quantiles is greater than the number of samples") on every smaller coalition:
+    # the scoring loops escalate UserWarning and must score such coalitions with the null value, not abort
+    warn_pipe = make_pipeline(QuantileTransformer(n_quantiles=5), KNeighborsClassifier(1))
+    for metric_kind, est in (("accuracy", KNeighborsClassifier(3)), ("rocauc", LogisticRegression(max_iter=100)), ("accuracy", warn_pipe)):
         c = 3 if metric_kind == "accuracy" else 2
         X = nprng.randn(5, 2)
         y = np.array([i % c for i in range(5)])
